@@ -161,7 +161,7 @@ def value_nodes_from_path(sg, focus, path_val, target_graph, inverse: bool = Fal
 
 
 def nodes_from_node_expression(
-    expr, focus_node, data_graph: 'GraphLike', sg: 'ShapesGraph', recurse_depth=0
+    expr, focus_node, data_graph: 'GraphLike', sg: 'ShapesGraph', recurse_depth=0, executor=None
 ) -> Union[Set[Union['RDFNode', None]], List[Union['RDFNode', None]]]:
     # https://www.w3.org/TR/shacl-af/#node-expressions
     if expr == SH_this:
@@ -181,7 +181,7 @@ def nodes_from_node_expression(
             parts = list(sg.graph.items(union_list))
             all_nodes: Set[Union['RDFNode', None]] = set()
             for p in parts:
-                new_parts = nodes_from_node_expression(p, focus_node, data_graph, sg, recurse_depth=recurse_depth + 1)
+                new_parts = nodes_from_node_expression(p, focus_node, data_graph, sg, recurse_depth=recurse_depth + 1, executor=executor)
                 all_nodes = all_nodes.union(new_parts)
             return all_nodes
         if len(intersections):
@@ -190,7 +190,7 @@ def nodes_from_node_expression(
             inter_nodes: Set[Union['RDFNode', None]] = set()
             new = True
             for p in parts:
-                new_parts = nodes_from_node_expression(p, focus_node, data_graph, sg, recurse_depth=recurse_depth + 1)
+                new_parts = nodes_from_node_expression(p, focus_node, data_graph, sg, recurse_depth=recurse_depth + 1, executor=executor)
                 if new is True:
                     inter_nodes = set(iter(new_parts))
                     new = False
@@ -216,11 +216,16 @@ def nodes_from_node_expression(
             filter_shape = sg.lookup_shape_from_node(filter_shape)
             nodes_expr = next(iter(nodes_nodes))
             to_filter = nodes_from_node_expression(
-                nodes_expr, focus_node, data_graph, sg, recurse_depth=recurse_depth + 1
+                nodes_expr, focus_node, data_graph, sg, recurse_depth=recurse_depth + 1, executor=executor
             )
+            if executor is None:
+                from pyshacl.pytypes import SHACLExecutor
+
+                executor = SHACLExecutor(advanced_mode=True)
             passes = set()
             for n in to_filter:
-                conforms, reports = filter_shape.validate(data_graph, n)
+                # the filter shape is consulted for plain SHACL conformance (it is not a top-level shape)
+                conforms, reports = filter_shape.validate(executor, data_graph, focus=n, _evaluation_path=[])
                 if conforms:
                     passes.add(n)
             return passes
@@ -255,7 +260,7 @@ def nodes_from_node_expression(
             )
         argslist_parts = list(sg.graph.items(fnargslist))
         args_sets: List[Union[List[Union['RDFNode', None]], Set[Union['RDFNode', None]]]] = [
-            nodes_from_node_expression(p, focus_node, data_graph, sg, recurse_depth=recurse_depth + 1)
+            nodes_from_node_expression(p, focus_node, data_graph, sg, recurse_depth=recurse_depth + 1, executor=executor)
             for p in argslist_parts
         ]
         num_args_sets = len(args_sets)
